@@ -348,6 +348,104 @@ def ob_validators(ctx: Ctx) -> Outcome:
     return Outcome.refuted("ast-shape", wits, count=n)
 
 
+CLI = "octave_mcp.cli.main"
+CLICK_PATH_NEUTRAL = {"exists", "dir_okay", "file_okay", "readable", "writable", "allow_dash"}
+
+
+def ob_cli_write_routes(ctx: Ctx) -> Outcome:
+    """C19.F6 — `given to the CLI as a file to write`. For every command function of cli/main.py that calls
+    atomic_write_octave(X, ...):
+      (a) X is a parameter of the command and is never re-bound in it (the string that is validated and written is the
+          string the user typed);
+      (b) the click declaration bound to X is click.Path(...) with path-neutral keywords only (no resolve_path=True,
+          no path_type / callback / custom type that could canonicalise the path before the validator sees it);
+      (c) the call is dominated (earlier statement of its own or an enclosing block) by `<ok>, <err> = validate_octave_path(X)` immediately followed by
+          `if not <ok>: ... raise SystemExit(1)`;
+      (d) the module has no other way of writing (open(.., 'w'/'a'/'x'), write_text, write_bytes, os.replace, shutil).
+    A shape this contract does not recognise is decided by the concrete CLI probe (probe fails => violation;
+    passes => undecided)."""
+    from props import C19_b
+    from verif.common import shape_verdict
+
+    try:
+        tree = extract.module_ast(CLI)
+    except (ExtractionError, AttributeError) as e:
+        return Outcome.undecided("ast-shape", str(e))
+    problems: list[str] = []
+    n = 0
+    routes = []
+    for fn in [x for x in ast.walk(tree) if isinstance(x, ast.FunctionDef)]:
+        sinks = [c for c in ast.walk(fn) if isinstance(c, ast.Call) and ast.unparse(c.func).split(".")[-1] == "atomic_write_octave"]
+        for c in ast.walk(fn):
+            if isinstance(c, ast.Call):
+                f = ast.unparse(c.func)
+                mode = ast.unparse(c.args[1]) if f == "open" and len(c.args) > 1 else next((ast.unparse(k.value) for k in c.keywords if k.arg == "mode"), "") if f == "open" else ""
+                if (f == "open" and any(m in mode for m in "wax+")) or f.split(".")[-1] in ("write_text", "write_bytes", "replace", "rename", "mkstemp", "copy", "copyfile", "move", "unlink", "mkdir", "makedirs") and not f.startswith(("str", "text", "s.")) and f.split(".")[0] in ("os", "shutil", "tempfile", "Path", "pathlib") :
+                    problems.append(f"{fn.name} L{c.lineno}: writes through `{f}(...)`, not through atomic_write_octave")
+        if not sinks:
+            continue
+        params = {a.arg for a in fn.args.args + fn.args.kwonlyargs}
+        for c in sinks:
+            n += 1
+            if not c.args or not isinstance(c.args[0], ast.Name) or c.args[0].id not in params:
+                problems.append(f"{fn.name} L{c.lineno}: atomic_write_octave is called with `{ast.unparse(c.args[0]) if c.args else ''}`, not with a command parameter")
+                continue
+            x = c.args[0].id
+            routes.append(f"{fn.name}({x})")
+            rebinds = [t for t in ast.walk(fn) if isinstance(t, ast.Name) and t.id == x and isinstance(t.ctx, ast.Store)]
+            if rebinds:
+                problems.append(f"{fn.name}: the path parameter `{x}` is re-bound on L{rebinds[0].lineno} before it is validated / written")
+            # (b) click declaration
+            decl = None
+            for d in fn.decorator_list:
+                if isinstance(d, ast.Call) and ast.unparse(d.func) in ("click.option", "click.argument"):
+                    names = [a.value for a in d.args if isinstance(a, ast.Constant) and isinstance(a.value, str)]
+                    bound = [nm for nm in names if not nm.startswith("-")] or [nm.lstrip("-").replace("-", "_") for nm in names if nm.startswith("--")]
+                    if x in bound:
+                        decl = d
+            if decl is None:
+                problems.append(f"{fn.name}: no click.option / click.argument declaration found for `{x}`")
+            else:
+                for k in decl.keywords:
+                    if k.arg == "type":
+                        if not (isinstance(k.value, ast.Call) and ast.unparse(k.value.func) == "click.Path"):
+                            problems.append(f"{fn.name}: `{x}` is declared with type `{ast.unparse(k.value)[:60]}` (expected click.Path(...))")
+                        else:
+                            for kk in k.value.keywords:
+                                if kk.arg not in CLICK_PATH_NEUTRAL:
+                                    problems.append(f"{fn.name}: `{x}` is declared click.Path({kk.arg}={ast.unparse(kk.value)}): click rewrites the path before validate_octave_path sees it")
+                            if k.value.args:
+                                problems.append(f"{fn.name}: `{x}` is declared click.Path with positional arguments {ast.unparse(k.value)[:60]}")
+                    elif k.arg in ("callback", "envvar", "default", "flag_value", "is_eager"):
+                        problems.append(f"{fn.name}: the declaration of `{x}` has {k.arg}=... (the path may not be the user's string)")
+            # (c) validation immediately before, same block
+            ok = False
+            for node in ast.walk(fn):
+                for field in ("body", "orelse", "finalbody"):
+                    blk = getattr(node, field, None)
+                    if not isinstance(blk, list):
+                        continue
+                    idx = next((i for i, st in enumerate(blk) if any(cc is c for cc in ast.walk(st))), None)
+                    if idx is None:
+                        continue  # (statements of an enclosing block that precede the one holding the sink dominate it)
+                    for i in range(idx):
+                        st = blk[i]
+                        if isinstance(st, ast.Assign) and isinstance(st.value, ast.Call) and ast.unparse(st.value.func).split(".")[-1] == "validate_octave_path" and [ast.unparse(a) for a in st.value.args] == [x] and not st.value.keywords and isinstance(st.targets[0], ast.Tuple) and i + 1 < len(blk):
+                            okname = ast.unparse(st.targets[0].elts[0])
+                            nxt = blk[i + 1]
+                            if isinstance(nxt, ast.If) and ast.unparse(nxt.test) == f"not {okname}" and isinstance(nxt.body[-1], ast.Raise) and ast.unparse(nxt.body[-1].exc).startswith(("SystemExit(1", "click.", "SystemExit(2")) and not nxt.orelse:
+                                between = blk[i + 2 : idx]
+                                if not any(isinstance(t, ast.Name) and t.id in (x, okname) and isinstance(t.ctx, ast.Store) for b in between for t in ast.walk(b)):
+                                    ok = True
+            if not ok:
+                problems.append(f"{fn.name} L{c.lineno}: atomic_write_octave({x}, ...) is not dominated by `ok, err = validate_octave_path({x})` + `if not ok: ... raise SystemExit(1)`")
+    if n == 0:
+        problems.append("no atomic_write_octave call found in cli/main.py")
+    if problems:
+        return shape_verdict("ast-shape", problems, C19_b.replay_cli_probe, count=max(n, 1), replay={"runner": "props.C19_b:replay_cli_probe", "args": {}})
+    return Outcome.ok("ast-shape", count=n * 4, routes=routes)
+
+
 def obligations(ctx: Ctx):
     P = PROPERTY
     obs = [
@@ -355,6 +453,7 @@ def obligations(ctx: Ctx):
         Ob(f"{P}.R2", "R", "a frozen reference is 'frozen@sha256:' + 64 hex digits; cache file from the digest alone; returned only when the streamed hash equals it", [f"{HYD}:resolve_hermetic_standard"], ob_frozen),
         Ob(f"{P}.F1", "F", "the three path validators: '..' refusal, per-component lstat walk refusing every symlink, extension allow-list, exceptions refuse; tools return E_PATH before any access", FUNCS[:3], ob_validators),
         Ob(f"{P}.F2", "F", "the tools pass the schema argument only to the name-based loaders", [f"{WRITE}:WriteTool.execute", f"{VALIDATE}:ValidateTool.execute"], ob_schema_routes),
+        Ob(f"{P}.F6", "F", "CLI write routes (write FILE, normalize/seal/hydrate -o): the user's own path string — click.Path with path-neutral options only, never re-bound — is validated by validate_octave_path with a refusing exit right before atomic_write_octave; the module has no other writer", [f"{CLI}:write", f"{CLI}:normalize", f"{CLI}:seal", f"{CLI}:hydrate"], ob_cli_write_routes),
         Ob(f"{P}.F5", "F", "staleness check: the vocabulary source is touched only after resolved.relative_to(resolved allowed root) succeeded", [f"{HYD}:_check_single_snapshot"], ob_staleness_containment),
         Ob(f"{P}.F4", "F", "validate_source_uri returns only a path for which resolved.relative_to(resolved base) succeeded", [f"{HYD}:validate_source_uri"], ob_source_uri),
     ]
@@ -362,6 +461,7 @@ def obligations(ctx: Ctx):
         from props import C19_b
 
         obs.append(Ob(f"{P}.B1", "B", "path strings over generated trees with secrets outside the sandbox: octave_write, octave_validate, atomic_write_octave; audit of every path opened", FUNCS[:3], C19_b.ob_paths, timeout=6000))
+        obs.append(Ob(f"{P}.B3", "B", "the CLI as a writer: write FILE, normalize -o, seal -o, hydrate -o with bad output paths exit non-zero and leave the tree unchanged", [f"{CLI}:write", f"{CLI}:normalize", f"{CLI}:seal", f"{CLI}:hydrate"], C19_b.ob_cli, timeout=1200))
         obs.append(Ob(f"{P}.B2", "B", "schema-name strings up to length 6, frozen digests, source URIs", FUNCS[3:], C19_b.ob_names, timeout=6000))
     except ImportError:
         pass
